@@ -94,6 +94,25 @@ E = nfc.llcp.errno
 NAMES = ["urn:nfc:xsn:verif.example:c10-%d" % i for i in range(4)]
 
 
+def as_type(data, sel):
+    """the message in one of the forms an application may hand over: bytes,
+    bytearray (both documented), or - what a careless caller does - a byte
+    view, a view of wider items (len() counts items, not octets), a str.
+    -> (object, octets it stands for)"""
+    k = sel % 9
+    if k <= 4:
+        return data, data
+    if k == 5:
+        return bytearray(data), data
+    if k == 6:
+        return memoryview(data), data
+    if k == 7 and len(data) % 2 == 0 and data:
+        return memoryview(data).cast("H"), data
+    if k == 8 and len(data) % 4 == 0 and data:
+        return memoryview(data).cast("I"), data
+    return data, data
+
+
 def setup():
     vsched.patch_nfc()
 
@@ -401,8 +420,13 @@ def op_sendto(w, side, i, kind, val, dkind, d):
         dest = peers[d % len(peers)].getsockname()
     else:
         dest = 2 + d % 62
+    msg, _ = as_type(bytes([val & 255]) * n, val >> 3)
     try:
-        ok = s.sendto(bytes([val & 255]) * n, dest, nfc.llcp.MSG_DONTWAIT)
+        ok = s.sendto(msg, dest, nfc.llcp.MSG_DONTWAIT)
+    except TypeError:
+        # another form than bytes / bytearray is refused as a whole
+        w.stats["message-type-refused"] += 1
+        return
     except nfc.llcp.Error as err:
         if err.errno == E.EMSGSIZE and n > miu:
             w.stats["oversize-refused"] += 1
@@ -501,8 +525,12 @@ def op_send(w, i, side, kind, val, blocking=False):
             w.stats["blocking-send-waits"] += 1
             w.last[side] = 3 + n
         return
+    msg, _ = as_type(bytes([val & 255]) * n, val >> 3)
     try:
-        ok = s.send(bytes([val & 255]) * n, nfc.llcp.MSG_DONTWAIT)
+        ok = s.send(msg, nfc.llcp.MSG_DONTWAIT)
+    except TypeError:
+        w.stats["message-type-refused"] += 1
+        return
     except nfc.llcp.Error as err:
         if err.errno == E.EMSGSIZE and n > lim:
             w.stats["oversize-refused"] += 1
